@@ -289,6 +289,15 @@ def one_dataset(obs, rng, conv, spec):
     if model.skip_cells:
         obs.cls('dataset-with-degenerate-derived-cells-skipped')
         return
+    d0 = model.depths[0]
+    if chance(rng, 0.4) and len(d0['values']) >= 2:
+        # the depth coordinate carries its own bounds (layer interfaces that are NOT half way between the layer centres)
+        vals = numpy.asarray(d0['values'], dtype=float)
+        gaps = vals[1:] - vals[:-1]
+        inner = (vals[1:] + vals[:-1]) / 2 + gaps * rng.uniform(-0.2, 0.2, size=len(gaps))
+        edges = numpy.concatenate([[vals[0] - (inner[0] - vals[0])], inner, [vals[-1] + (vals[-1] - inner[-1])]])
+        d0['bounds'] = numpy.column_stack([edges[:-1], edges[1:]])
+        obs.cls('depth-coordinate-with-stored-bounds')
     ds = model.encode()
     two_depths = False
     if chance(rng, 0.3):
@@ -661,6 +670,19 @@ def one_transect(obs, rng, env, line, cls, spec):
                    lambda: {'got': gdep.values, 'want': dvals, 'dims': gdep.dims}, mech='transect-dataset-depth')
         obs.expect(gdep.attrs.get('positive') == depth['positive'], 'transect depth keeps the direction of the depth coordinate',
                    lambda: {'got': gdep.attrs.get('positive'), 'want': depth['positive']}, mech='transect-dataset-depth')
+        gb = obs.call('transect_dataset.depth_bounds', lambda: numpy.asarray(td['depth_bounds'].values, dtype=float))
+        if not isinstance(gb, Failed):
+            if depth.get('bounds') is not None:
+                obs.expect(gb.shape == numpy.asarray(depth['bounds']).shape and nan_equal(gb, numpy.asarray(depth['bounds'], dtype=float)),
+                           'transect depth bounds are the stored bounds of the depth coordinate',
+                           lambda: {'got': gb, 'want': depth['bounds']}, mech='transect-depth-bounds')
+            else:
+                # made-up bounds: every layer contains its own depth, neighbouring layers meet, no layer is empty
+                lo, hi = gb.min(axis=1) if gb.size else gb, gb.max(axis=1) if gb.size else gb
+                ok = gb.shape == (len(dvals), 2) and bool(numpy.all((lo <= dvals) & (dvals <= hi))) \
+                    and bool(numpy.all(gb[:-1, 1] == gb[1:, 0])) and (len(dvals) < 2 or bool(numpy.all(hi > lo)))
+                obs.expect(ok, 'made-up transect depth bounds: each layer holds its depth value, neighbouring layers meet',
+                           lambda: {'bounds': gb, 'depths': dvals}, mech='transect-depth-bounds')
 
     # ---- (5) prepared data ------------------------------------------------------------------------------------
     if isinstance(td, Failed):
